@@ -340,10 +340,12 @@ P("C10",
   level_text="Bounded random exploration at session level: a real leeching session (in-memory recording storage) is started from a generated .torrent or magnet link for a "
              "generated layout, in rarest-first or sequential mode, under each encryption policy, with at least one honest full source (scripted seeder listening or dialing, "
              "plaintext or MSE, with or without the fast extension, and/or an HTTP web seed) plus 0..3 nuisance peers (never unchoke, choke cycles, stalls, disconnects, corrupt blocks, "
-             "duplicates, partial bitfields) and optionally a corrupting / truncating / 404 web seed. Oracle: completion is signalled and every file equals F; otherwise the stuck-state "
-             "predicate (honest source connected, unchoking, no request outstanding, nothing moved for 4 s) is a violation and mere slowness is inconclusive.",
-  level_note="Trusted: " + SESSION_TRUST + ". Liveness is judged as bounded-time reachability (25 s for <= 600 KiB) plus the stuck-state safety predicate; goroutine scheduling inside the client is not controlled.",
-  technique="property-based testing (rapid) at system level: generated configurations and fault schedules against scripted independent endpoints; stuck-state predicate",
+             "duplicates, rejected requests, allowed-fast grants, partial bitfields) and optionally a corrupting / truncating / 404 web seed or a slow honest one. Oracle: completion is signalled and every file equals F; otherwise the stuck-state "
+             "predicate (honest source connected, unchoking, no request outstanding, nothing moved for 4 s) is a violation and mere slowness is inconclusive. The property's last sentence is judged on the wire: "
+             "in downloads from peers alone, and in mixed downloads while the honest web seed pauses in the middle of a response, no window of 2.5 s in which the honest seeder is connected, unchoking, idle and "
+             "sees the client interested while a piece is incomplete on storage, no scripted peer holds or received a request for it and the web seed cannot be reading it.",
+  level_note="Trusted: " + SESSION_TRUST + ". Liveness is judged as bounded-time reachability (25 s for <= 600 KiB) plus the stuck-state safety predicate; goroutine scheduling inside the client is not controlled; windows during which the case process itself was descheduled (measured) are discarded, and timeouts of honest sources are inconclusive only then.",
+  technique="property-based testing (rapid) at system level: generated configurations and fault schedules against scripted independent endpoints; stuck-state predicate and idle-seeder window",
   rule="layout x mode x source mix x encryption policy x start mode x nuisance behaviours; non-trivial = multi-file / padded / short-last-piece layout, or nuisance peers, magnet, encryption, or a bad web seed",
   assumptions=["the honest seeder is generated compatible with the client's encryption policy (the property assumes a reachable source)"],
   units=[
